@@ -501,6 +501,13 @@ def run(ctx):
     units = [(dom, (), pi, l, k, 'full') for l in range(cfg['L'] + 1) for dom in DOMS for pi in range(npieces[dom])
              for k in range(1 << l)]
     cf = run_bdr(ctx, rep, units, 'fresh(l<={})'.format(cfg['L']), totals, samples)
+    # ---- (b+) deep targets on fresh meshes: levels beyond the complete set, k at both ends, around the middle and at an odd place
+    deep_L = (8, 10, 12) if ctx.tier == 'quick' else (8, 9, 10, 11, 12, 14)
+    units_deep = [(dom, (), pi, l, k, 'light') for l in deep_L for dom in DOMS for pi in range(npieces[dom])
+                  for k in sorted({0, 1, (1 << l) // 2 - 1, (1 << l) // 2, (1 << l) // 3, (1 << l) - 2, (1 << l) - 1})]
+    cd = run_bdr(ctx, rep, units_deep, 'fresh-deep(l in {})'.format(list(deep_L)), totals, samples)
+    if not cd.get('bdr_calls', 0):
+        raise HarnessError('deep boundary targeting had no cases')
     # ---- (b') on every state of the shallow BFS graph
     units2 = [(dom, h, pi, l, k, 'light') for l in range(cfg['state_L'] + 1) for dom in DOMS
               for h in states_for_bdr[dom] for pi in range(npieces[dom]) for k in range(1 << l)]
@@ -518,12 +525,12 @@ def run(ctx):
             raise HarnessError('calls did not complete but no violation was reported')
     if cf['units'] != sum(npieces.values()) * ((1 << (cfg['L'] + 1)) - 1) or cf['infeasible_units'] != 0:
         raise HarnessError('fresh targeting set incomplete: {}'.format(cf))
-    n_b = sum(c.get('bdr_calls', 0) for c in (cf, cs))
+    n_b = sum(c.get('bdr_calls', 0) for c in (cf, cs, cd))
     cov = {
         'states': st.states,
         'transitions': st.transitions + int(st.extra.get('uniform_calls', 0)) + n_b,
         'traces_validated_against_impl': st.transitions + int(st.extra.get('uniform_completed', 0))
-        + sum(c.get('bdr_completed', 0) for c in (cf, cs)),
+        + sum(c.get('bdr_completed', 0) for c in (cf, cs, cd)),
         'refine_transitions': st.transitions,
         'uniform_refine_transitions': int(st.extra.get('uniform_calls', 0)),
         'uniform_refine_completed': int(st.extra.get('uniform_completed', 0)),
